@@ -7,7 +7,7 @@
    helpers copy the count back) and the seeded mutant C09-m2 (arraySort swallowing the budget error) are about; the
    correspondence and the direct oracle exercise them on the real library. *)
 From Coq Require Import ZArith.
-From BS Require Import Model.Base Model.Num Model.Arith Model.ExprParser Model.Script Model.Interp Model.LibCore Model.Run Proofs.C09 Proofs.C09term.
+From BS Require Import Model.Base Model.Num Model.Arith Model.ExprParser Model.Script Model.Interp Model.LibCore Model.Run Proofs.C09 Proofs.C09term Proofs.C09termLib.
 Local Open Scope Z_scope.
 
 (* EXACT (1): the limit is tested at the head of every statement, after counting it: with L statements started, statement
@@ -172,6 +172,30 @@ Theorem C09_termination_premises_hold_for_modelled_library : forall cfg,
   lib_terminates (libcore cfg) /\ lib_ranked (libcore cfg) (fun _ => O).
 Proof. intros cfg. split; [exact (libcore_terminates cfg)|exact (libcore_ranked cfg)]. Qed.
 Print Assumptions C09_termination_premises_hold_for_modelled_library.
+
+(* ... and so does a library with a function that DOES call back (Proofs/C09termLib.v libcb = libcore + `__each(array, f)`,
+   which calls f(x) for each element, passes the first non-value outcome on and refuses itself as f; rank 1, all others 0) *)
+Theorem C09_termination_premises_hold_for_a_library_with_callbacks : forall cfg,
+  lib_terminates (libcb cfg) /\ lib_ranked (libcb cfg) rank_cb.
+Proof. intros cfg. split; [exact (libcb_terminates cfg)|exact (libcb_ranked cfg)]. Qed.
+Print Assumptions C09_termination_premises_hold_for_a_library_with_callbacks.
+
+(* under maxStatements = 10, with `__each` bound in the globals:
+     function g(x): systemLog('g') endfunction   return __each(arrayNew(1, 2), g)   -> logs g, g; 4 statements
+     function h(x): L: jump L endfunction        return __each(arrayNew(1, 2), h)   -> the budget error comes out of the library *)
+Example C09_example_callbacks_through_the_library : forall bot fuel,
+  let cfg := mkcfg 10 false true in
+  let w := upd_globals (world0 []) [(U "__each", VFun (FLib (U "__each")))] in
+  let arr := ECall (U "arrayNew") [ENum (NInt 1); ENum (NInt 2)] in
+  let r1 := execute_script_bot cfg (libcb cfg) no_url no_lint bot (20 + fuel)
+              [ SFunction (U "g") (Some [U "x"]) false false [SExpr None (ECall (U "systemLog") [EStr (U "g")])];
+                SReturn (Some (ECall (U "__each") [arr; EVar (U "g")])) ] w in
+  let r2 := execute_script_bot cfg (libcb cfg) no_url no_lint bot (40 + fuel)
+              [ SFunction (U "h") (Some [U "x"]) false false [SLabel (U "L"); SJump (U "L") None];
+                SReturn (Some (ECall (U "__each") [arr; EVar (U "h")])) ] w in
+  (fst r1 = OVal VNull /\ w_log (snd r1) = [U "g"; U "g"] /\ w_count (snd r1) = 4) /\
+  (fst r2 = ORt (msg_exceeded 10) /\ w_count (snd r2) = 11).
+Proof. exact each_examples. Qed.
 
 (* non-vacuity / the budget at work: `L: jump L` (while true) and `function f(): return f() endfunction  return f()` under
    maxStatements = 10 stop with the budget error after 11 statement starts, for every fuel from a bound on and every bot *)
